@@ -41,7 +41,7 @@ OUT_FIELDS = {"ParticleBeam": [("particles", 2), ("energy", 0), ("particle_charg
               "ParameterBeam": [("_mu", 1), ("_cov", 2), ("energy", 0), ("total_charge", 0)]}
 STRUCTS = ["elem(B)", "elem(B)", "elem(1)", "elem(N)", "elem(7)", "beam(B)", "beam(N)", "elem(B)+beam(B)",
            "elem(B,1)+beam(C)", "elem(C)+beam(B,1)", "mixed(A,B)"]
-PATTERNS_SIGNED = ["all0", "all+", "all-", "one0+", "one0-", "one+", "one-", "mixed"]
+PATTERNS_SIGNED = ["all0", "all+", "all-", "one0+", "one0-", "one+", "one-", "mixed", "antisym"]
 PATTERNS_UNSIGNED = ["all0", "all+", "one0+", "one+"]
 
 
@@ -232,9 +232,20 @@ def predicate(case) -> str:
     return ";".join(labs) or "none"
 
 
+def coord_group(f: dict) -> str:
+    """which part of the result differs (so that a new kind of deviation is not hidden behind a recorded one)"""
+    c = f.get("coord", "")
+    if f["field"] in ("particles", "_mu"):
+        return "tau" if c == "tau" else ("delta" if c in ("p", "delta") else "transverse")
+    if f["field"] == "_cov":
+        return "cov(" + ("longitudinal" if ("tau" in c or ",p" in c or c.startswith("p,")) else "transverse") + ")"
+    return f["field"]
+
+
 def signature(case, f: dict) -> str:
     field = "moments" if f["field"] in ("_mu", "_cov") else f["field"]
-    return f"C04|{H.lattice_label(case['recs'])}|{predicate(case)}|{case['beam']['type']}|{field}:{f['kind']}"
+    extra = ":" + coord_group(f) if f["kind"] in ("value", "nonfinite") else ""
+    return f"C04|{H.lattice_label(case['recs'])}|{predicate(case)}|{case['beam']['type']}|{field}:{f['kind']}{extra}"
 
 
 def to_replay(case, f: dict) -> dict:
@@ -431,6 +442,12 @@ def fill(rng, kind: str, name: str, n: int, pattern: str) -> np.ndarray:
     if pattern in ("one+", "one-"):
         v = np.zeros(n)
         v[one] = mag[one] * (1.0 if pattern == "one+" else -1.0)
+        return v
+    if pattern == "antisym":
+        # a symmetric scan: the entries cancel in a sum (+d, -d, ...)
+        v = np.array([mag[0] * (1.0 if i % 2 == 0 else -1.0) for i in range(n)])
+        if n % 2 == 1:
+            v[-1] = 0.0
         return v
     if pattern == "mixed":
         if n >= 2:
